@@ -1,4 +1,5 @@
 import VOPyVerif.Drv.Proto
+import VOPyVerif.Drv.CoreOps
 import VOPyVerif.Model.Accuracy
 import VOPyVerif.Model.Steps
 /-! Driver front end for property C05 (VOGP / ε-PAL keep ε-isolated optima; `P` is internally
@@ -11,6 +12,10 @@ non-ε-dominated).
 * `vround <n> <dom> <cov> <pess> <S> <P>` → `S';P'` (sorted) : one `Steps.vogpRound` with the oracles given
   as row-major `n×n` bit tables (`dom[i][j]` = "region i is dominated by region j (+slack)", `cov[i][j]` =
   "region i is covered by region j", `pess[j][i]` = "region j pessimistically dominates region i")
+
+* INTEGRATION: `pcore ball|rect …`, `vcore …` — whole runs through the executable decision core
+  (`Model/Core.lean`: oracles computed from the displayed regions by the exact geometry models); see
+  `Drv/CoreOps.lean` for the formats.
 
 `s` is the slack in objective space (`ε·u*` for VOGP, `ε·𝟙` for ε-PAL), `M` the matrix of true means.
 Guards (else `bad-op`): `M` non-empty, rows of `M`, `W` and `s` of one length, indices `< K`.
@@ -62,6 +67,6 @@ def handle (args : List String) : String :=
     | some W, some s, some M, some i =>
       if shapesOk W s M [i] then fmtBool (isolated W s M.length (muOf M) i) else bad
     | _, _, _, _ => bad
-  | _ => bad
+  | _ => (CoreOps.handle args).getD bad  -- INTEGRATION: whole runs through `Model/Core.lean`
 
 end VOPy.Drv.C05
